@@ -40,9 +40,9 @@ AMP_MAX = 1e7  # whitened residuals that cancel to less than 1e-7 of their summa
 # helpers
 
 
-def amp_estimate(cfg, field, d, means, t_prev, h):
-    """cancellation factor of the residual of the mean-only prediction from `means` ((n, d) floats):
-    (|m_K| + |f| + 2 |J||m|) / |m_K - f|, maximal over the dimensions; exact evaluation, float result."""
+def amp_dims(cfg, field, d, means, t_prev, h):
+    """per dimension: the summands |m_K| + |f| (+ 2 |J||m|) and the absolute value |m_K - f| of the residual of the
+    mean-only prediction from `means` ((n, d) floats); exact evaluation, float result: (rn (d,), r (d,))"""
     n = means.shape[0]
     K = field.order
     hq = F(h)
@@ -53,17 +53,29 @@ def amp_estimate(cfg, field, d, means, t_prev, h):
     pred = [[sum(hq ** (j - i) / fact[j - i] * mf[j][a] for j in range(i, n)) for a in range(d)] for i in range(n)]
     t1 = F(t_prev) + hq
     fx = field.eval_exact(pred, t1)
-    amp = 1.0
     J = field.jac_exact(pred, t1) if cfg.lin == "ts1" else None
+    rn, r = np.zeros(d), np.zeros(d)
     for a in range(d):
-        r = abs(float(pred[K][a] - fx[a]))
-        rn = abs(float(pred[K][a])) + abs(float(fx[a]))
+        r[a] = abs(float(pred[K][a] - fx[a]))
+        rn[a] = abs(float(pred[K][a])) + abs(float(fx[a]))
         if J is not None:
-            rn += 2 * sum(abs(float(J[a][k][b] * pred[k][b])) for k in range(K) for b in range(d))
-        if rn == 0.0:
-            continue
-        amp = max(amp, rn / r if r > 0 else float("inf"))
-    return amp
+            rn[a] += 2 * sum(abs(float(J[a][k][b] * pred[k][b])) for k in range(K) for b in range(d))
+    return rn, r
+
+
+def amp_from(cfg, rn, r):
+    """cancellation factor of a whitened residual: block-diagonal models estimate one scale per dimension (worst
+    dimension counts), dense / isotropic models pool the dimensions (largest summand over largest residual).
+    A residual that vanishes exactly (also 0 - 0) makes the scale estimate 0/0: infinity."""
+    with np.errstate(divide="ignore", invalid="ignore"):
+        if cfg.fact == "bd":
+            q = np.where(r > 0, rn / r, np.inf)
+            return float(max(1.0, np.max(q)))
+        return float(max(1.0, np.max(rn) / np.max(r))) if np.max(r) > 0 else float("inf")
+
+
+def amp_estimate(cfg, field, d, means, t_prev, h):
+    return amp_from(cfg, *amp_dims(cfg, field, d, means, t_prev, h))
 
 
 def means_nd(cfg, rv, d):
@@ -222,8 +234,8 @@ def check_rescaled_state(ctx, name, cfg, raw, got, s2list, pv, case, sigp):
         dm = sm._dev_vec(gm, em, np.abs(sm.tofloat(em)) + np.sqrt(np.maximum(sm.tofloat(sv), 0.0)) + 1e-300)
         dc = sm._dev_cov(gC, eC, sv)
         c = dict(case, slice=j)
-        ctx.dev(f"{name}.mean=raw.mean", dm, 1e-12, case=c, sig=f"{sigp}:mean-changed-by-calibration", what=f"{name}: returned mean differs from the filter mean ({dm:.2e})")
-        ctx.dev(f"{name}.cov=scale2*raw.cov", dc, 1e-11, case=c, sig=f"{sigp}:cov-not-scale2-times-unit", what=f"{name}: returned covariance deviates {dc:.2e} from scale^2 x unit-scale covariance (predicted-variance metric)")
+        ctx.dev(f"{name}.mean=raw.mean", dm, 1e-8, case=c, sig=f"{sigp}:mean-changed-by-calibration", what=f"{name}: returned mean differs from the filter mean ({dm:.2e})")
+        ctx.dev(f"{name}.cov=scale2*raw.cov", dc, TOL, case=c, sig=f"{sigp}:cov-not-scale2-times-unit", what=f"{name}: returned covariance deviates {dc:.2e} from scale^2 x unit-scale covariance (predicted-variance metric)")
 
 
 def check_covariances_filter(ctx, cfg, d, raw_states, dts, sol, s2list, case, sigp):
@@ -254,7 +266,9 @@ def check_covariances_smoother(ctx, cfg, d, raw_states, sol, scales, case, sigp)
             dm = sm._dev_vec(g[0], mm, np.abs(sm.tofloat(mm)) + np.sqrt(sm.tofloat(sv)))
             dc = sm._dev_cov(g[1], mc, sv)
             c = dict(case, time_index=i, slice=j)
-            ctx.dev("smoothed.mean", dm, 1e-8, case=c, sig=f"{sigp}:smoothed-mean", what=f"smoothed mean at index {i} deviates {dm:.2e} from the model finalisation of the raw states")
+            kap = L.kappa_q(cfg.q)
+            dm, dc = dm / kap, dc / kap
+            ctx.dev("smoothed.mean", dm, 1e-8, case=c, sig=f"{sigp}:smoothed-mean", what=f"smoothed mean at index {i} deviates {dm:.2e} (/ conditioning of the backward pass) from the model finalisation of the raw states")
             ctx.dev("smoothed.cov", dc, 1e-7, case=c, sig=f"{sigp}:smoothed-cov-not-scale2-times-unit", what=f"calibrated smoothed covariance at index {i} deviates {dc:.2e} (relative to calibrated filter variances)")
 
 
@@ -297,8 +311,10 @@ def value_fixed_grid(ctx, cfg, d, field, u0s, t0, hs, tag="grid"):
         if not np.all(osc[0] == 1.0):
             ctx.violation(f"{sigp}:dynamic-initial-scale", "dynamic output scale at t0 is not one", case)
         for i in range(N):
-            if not np.array_equal(osc[i + 1], np.asarray(raw[i + 1].output_scale)):
-                ctx.violation(f"{sigp}:dynamic-scale-promoted", f"solution.output_scale[{i + 1}] is not the local scale of step {i}", case)
+            # (two separately compiled programs: equal up to rounding x cancellation factor)
+            dd = L.rel(osc[i + 1], np.asarray(raw[i + 1].output_scale, dtype=np.float64)) / max(1.0, min(amp, AMP_MAX))
+            if amp < AMP_MAX:
+                ctx.dev("dynamic.promoted", dd, TOL, case=dict(case, step=i), sig=f"{sigp}:dynamic-scale-promoted", what=f"solution.output_scale[{i + 1}] is not the local scale of step {i}")
         s2impl, scales = [Fraction(1)] * d, [Fraction(1)] * d
     else:
         if not np.all(osc == 1.0):
@@ -387,8 +403,6 @@ def value_adaptive(ctx, cfg, d, field, u0s, t0, save_at, tol, clip):
     if not np.array_equal(np.asarray(sol.num_steps), np.asarray(sol_r.num_steps)) or int(np.asarray(sol.num_steps)[-1]) != nsteps:
         ctx.violation(f"{sigp}:num_steps", f"num_steps {np.asarray(sol.num_steps)} vs replica {np.asarray(sol_r.num_steps)} / {nsteps} accepted steps", case)
         return
-    d_rep = L.rel(np.asarray(sol.output_scale), np.asarray(sol_r.output_scale))
-    ctx.dev("adaptive.replica.output_scale", d_rep, 1e-10, case=case, sig=f"{sigp}:replica-differs", what=f"solve_adaptive_save_at output scale differs from the loop assembled from the public RejectionLoop pieces by {d_rep:.2e}")
     stepper = L.Stepper(ctx, cfg, field, d, L.lam_of(cfg, d))
     # the accepted steps form a chain for the marginals; the fixed-point smoother only changes the backward conditional
     # at checkpoints, which does not enter the calibration. Evaluate the model on every accepted step.
@@ -403,6 +417,8 @@ def value_adaptive(ctx, cfg, d, field, u0s, t0, save_at, tol, clip):
         ctx.skip("model refused step: " + e.ans[:60])
         return
     osc = np.asarray(sol.output_scale, dtype=np.float64)
+    d_rep = L.rel(osc, np.asarray(sol_r.output_scale)) / max(1.0, min(amp, AMP_MAX))
+    ctx.dev("adaptive.replica.output_scale", d_rep, TOL, case=case, sig=f"{sigp}:replica-differs", what=f"solve_adaptive_save_at output scale differs from the loop assembled from the public RejectionLoop pieces by {d_rep:.2e} (/ cancellation factor)")
     if cfg.solver.startswith("mle"):
         exp2 = expected_scale2(ctx, cfg, terms, nsteps, d)
         if amp < AMP_MAX:
@@ -420,8 +436,17 @@ def value_adaptive(ctx, cfg, d, field, u0s, t0, save_at, tol, clip):
                 pv = pred_vars_slices(cfg, d, L.lam_of(cfg, d), prev, new, dt)
                 check_rescaled_state(ctx, "adaptive.terminal", cfg, new.solution_full, L.unstack(sol.u, L.stack_len(sol) - 1), s2impl, pv, case, sigp)
     elif cfg.solver.startswith("dynamic"):
-        # reported scale at a checkpoint = local scale of the step that passed it (taken from interp_to)
-        pass
+        # reported scale at a checkpoint = local scale of the accepted step that reached / passed it (the per-step
+        # values themselves were compared with the model above)
+        if not np.all(osc[0] == 1.0):
+            ctx.violation(f"{sigp}:dynamic-initial-scale", "dynamic output scale at t0 is not one", case)
+        for kk in range(1, len(save_at)):
+            jj = next((j for j, x in enumerate(accepted) if float(x[2].t) + 1e-8 >= float(save_at[kk])), None)
+            if jj is None:
+                continue
+            if not np.array_equal(osc[kk], np.asarray(accepted[jj][2].output_scale, dtype=np.float64)) and amp < AMP_MAX:
+                dd = L.rel(osc[kk], np.asarray(accepted[jj][2].output_scale, dtype=np.float64)) / amp
+                ctx.dev("adaptive.dynamic.promoted", dd, TOL, case=dict(case, checkpoint=kk), sig=f"{sigp}:dynamic-scale-promoted", what=f"output scale at checkpoint {kk} is not the local scale of the accepted step that reached it")
     else:
         if not np.all(osc == 1.0):
             ctx.violation(f"{sigp}:uncalibrated-scale-not-one", "uncalibrated solver reports an output scale different from one", case)
@@ -637,7 +662,8 @@ def run(ctx):
     lap("corpus")
     rng = ctx.rng
     # (a) fixed grids
-    for it in range(ctx.n(8, 90)):
+    for it in range(ctx.n(6, 70)):
+        L.release()
         cfg, d, order = random_config(ctx, it, ["filter", "fixedinterval"])
         field, u0s, t0 = make_problem(ctx, d, order)
         hs = [float(2.0 ** rng.integers(-5, 0)) * float(gen.pick(rng, [1.0, 0.75, 1.5])) for _ in range(int(rng.integers(2, 7)))]
@@ -645,6 +671,7 @@ def run(ctx):
         value_fixed_grid(ctx, cfg, d, field, u0s, t0, hs)
     lap("value fixed grid")
     for it in range(ctx.n(2, 12)):
+        L.release()
         cfg, d, order = random_config(ctx, it, ["filter"])
         cfg = dataclasses.replace(cfg, solver=gen.pick(rng, ["mle", "mle_nocorr"]), init="inexact", inexact_eps=2.0**-6, damp=float(gen.pick(rng, [0.0, 2.0**-8])))
         field, u0s, t0 = make_problem(ctx, d, order)
@@ -652,7 +679,8 @@ def run(ctx):
         value_constraint_init(ctx, cfg, d, field, u0s, t0, hs)
     lap("value constraint_init")
     # (b) adaptive
-    for it in range(ctx.n(3, 30)):
+    for it in range(ctx.n(3, 24)):
+        L.release()
         cfg, d, order = random_config(ctx, it, ["filter", "fixedpoint"], qmax=4)
         cfg = dataclasses.replace(cfg, solver=gen.pick(rng, ["mle", "mle_nocorr", "dynamic", "solver"], [3, 2, 1, 1]))
         field, u0s, t0 = make_problem(ctx, d, order, kind="linear")
@@ -664,7 +692,8 @@ def run(ctx):
         value_adaptive(ctx, cfg, d, field, u0s, t0, save_at, tol, clip=bool(rng.random() < 0.5))
     lap("value adaptive")
     # (c) equivariance
-    for it in range(ctx.n(12, 120)):
+    for it in range(ctx.n(8, 100)):
+        L.release()
         cfg, d, order = random_config(ctx, it, ["filter", "fixedinterval"], damp0=True, exact=True, qmax=6)
         field, u0s, t0 = make_problem(ctx, d, order, state_dependent=True)
         lo = -4 if cfg.q <= 3 else -2
@@ -673,6 +702,7 @@ def run(ctx):
         equivariance_fixed(ctx, cfg, d, field, u0s, t0, hs, [random_c(rng) for _ in range(ctx.n(2, 3))])
     lap("equivariance fixed grid")
     for it in range(ctx.n(2, 20)):
+        L.release()
         cfg, d, order = random_config(ctx, it, ["filter", "fixedpoint"], damp0=True, exact=True, qmax=4)
         field, u0s, t0 = make_problem(ctx, d, order, kind="linear")
         tol = float(10.0 ** rng.uniform(-6, -2))
@@ -682,7 +712,8 @@ def run(ctx):
         equivariance_adaptive(ctx, cfg, d, field, u0s, t0, save_at, tol, bool(rng.random() < 0.5), [random_c(rng) for _ in range(2)])
     lap("equivariance adaptive")
     # (d) probes of the excluded points: logged, not asserted
-    for it in range(ctx.n(4, 16)):
+    for it in range(ctx.n(2, 16)):
+        L.release()
         cfg, d, order = random_config(ctx, it, ["filter"], damp0=True, exact=True, qmax=4)
         if it % 2 == 0:
             cfg = dataclasses.replace(cfg, damp=0.125)
